@@ -51,8 +51,9 @@ def canon(o):
 
 def state_key(st):
     st = canon(st)
-    st['store'] = sorted(st['store'], key=json.dumps)
-    st['dev'] = sorted(st['dev'], key=json.dumps)
+    for k in ('store', 'dev'):
+        if k in st:
+            st[k] = sorted(st[k], key=json.dumps)
     return json.dumps(st, sort_keys=True)
 
 
@@ -131,7 +132,7 @@ PUSH2FAIL = ['flush', 'flush', 'readw', 'raise']     # the same push rejected by
 class World(object):
     """One real device object with concurrent operations under the deterministic scheduler."""
 
-    def __init__(self, mode, prog, replies, ridbase=10, rec=None):
+    def __init__(self, mode, prog, replies, ridbase=10, rec=None, lid0=None):
         m = env.mods()
         self.mode = mode
         self.prog, self.replies = prog, replies
@@ -141,6 +142,9 @@ class World(object):
         md = 64 if any(p in (PUSH2, PUSH2FAIL) for p in prog.values()) else 4096
         self.dev = simdev.SimDevice(rec=self.rec, lazy=False, rid_of=lambda lid, dev: ridbase + lid, auth=simdev.AuthPolicy(maxdata=md))
         self.dev.reorder = True
+        for i, t in enumerate(self.threads):
+            self.dev.fs.add('/' + t, b'x' * (11 * (i + 1)), mode=0o100000 + i + 1, mtime=1000 + i)
+            self.dev.fs.dirs['/' + t] = [(('e-' + t).encode(), i + 1, 10 + i, 100 + i)]
         self.dev.service_for = self.service_for
         self.clock = simdev.VClock()
         self.core = transports.PipeCore(self.dev, rec=self.rec, clock=self.clock)
@@ -164,6 +168,8 @@ class World(object):
         io._store_lock.name, io._transport_lock.name, self.device._local_id_lock.name = 's', 't', 'id'
         _locks.by_name = {'s': io._store_lock, 't': io._transport_lock, 'id': self.device._local_id_lock}
         self.io = io
+        self.lid0 = lid0
+        self.io_yield = False
         self.lids = {t: 0 for t in self.threads}
         self.results = {}
 
@@ -198,7 +204,16 @@ class World(object):
             return lambda: d.list('/' + t)
         if p in (PUSH2, PUSH2FAIL):
             import io
-            return lambda: d.push(io.BytesIO(bytes(range(40))), '/p', mtime=5)
+            world = self
+
+            class YieldIO(io.BytesIO):
+                # reading the local source is I/O: a real thread can be preempted there (exploration only)
+                def read(self, n=-1):
+                    s_ = _holder['sched']
+                    if world.io_yield and s_ is not None and not s_.is_async and sched.current_name() in s_.th:
+                        s_.boundary('io', lambda: True)
+                    return io.BytesIO.read(self, n)
+            return lambda: d.push(YieldIO(bytes(range(40))), '/p', mtime=5)
         raise AssertionError('no public operation has the shape %r' % (p,))
 
     async def start(self):
@@ -213,6 +228,8 @@ class World(object):
         self.core.defer = True
         self.dev.lazy = False
         self.core.h2d_q = []
+        if self.lid0 is not None:
+            self.device._local_id = self.lid0
         _holder['sched'] = self.sched
         for t in self.threads:
             await self.sched.aspawn(t, self.op(t))
@@ -359,9 +376,11 @@ def api_name(p):
     return 'stat'
 
 
-async def run_schedule(mode, prog, replies, pick, ridbase=10, max_steps=2000):
+async def run_schedule(mode, prog, replies, pick, ridbase=10, max_steps=2000, lid0=None, write_yield=False):
     """One execution of the real code under a schedule chosen by pick(enabled) -> (trace, info)."""
-    w = World(mode, prog, replies, ridbase)
+    w = World(mode, prog, replies, ridbase, lid0=lid0)
+    w.gate.write_yield = write_yield
+    w.io_yield = write_yield
     w.op_plain = w.op
     w.op = lambda t: _wrap_op(w, t, w.op_plain(t), api_name(prog[t]))
     await w.start()
@@ -423,7 +442,7 @@ async def run_schedule(mode, prog, replies, pick, ridbase=10, max_steps=2000):
     return tr, dict(stuck=stuck, schedule=sched_log, results={t: w.results.get(t) for t in w.threads}, lids=dict(w.lids))
 
 
-def explore(mode, prog, replies, n, rng, ridbase=10):
+def explore(mode, prog, replies, n, rng, ridbase=10, lid0=None, write_yield=False):
     """n random schedules (uniform and sticky mixes)."""
     async def main():
         out = []
@@ -437,7 +456,7 @@ def explore(mode, prog, replies, n, rng, ridbase=10):
                 c = en[rng.randrange(len(en))]
                 last[0] = c
                 return c
-            out.append(await run_schedule(mode, prog, replies, pick, ridbase))
+            out.append(await run_schedule(mode, prog, replies, pick, ridbase, lid0=lid0, write_yield=write_yield))
         return out
     loop = asyncio.new_event_loop()
     try:
